@@ -529,6 +529,28 @@ def run(ctx, res):
     res.extra["rfc_grammar_cases"] = n_rfc
     res.extra["dateutil_comparisons"] = n_du
 
+    # ---- a decoded rule belongs to the caller: editing its part lists in place does not change what the same text decodes to later
+    seen_txt = set()
+    for kind, items, kwform in cases:
+        txt = impl_roundtrip(items, kwform)[0]
+        if not isinstance(txt, str) or txt in seen_txt or len(seen_txt) >= (3000 if ctx.big else 300):
+            continue
+        seen_txt.add(txt)
+        first = outcome(lambda: vRecur.from_ical(txt))
+        if isinstance(first, list):
+            continue
+        want = obs_rule(first)
+        for v in list(first.values()):
+            if isinstance(v, list):
+                v.append(v[0] if v else 1)
+                v.reverse()
+        first["X-ADDED"] = ["1"]
+        res.evaluations += 1
+        again = outcome(lambda: vRecur.from_ical(txt))
+        got = again if isinstance(again, list) and again[:1] == ["err"] else obs_rule(again)
+        if got != want:
+            res.fail("C19: decoding the same rule text again gives another rule after the caller edited the first decoded "
+                     "rule in place", txt, observed=got, expected=want)
     # ---- malformed / foreign text through from_ical
     texts = gen_malformed(ctx)
     impl = []
